@@ -72,15 +72,16 @@ func (a *Act) callWith(instr ssa.Instruction, c *ssa.CallCommon, rt types.Type, 
 	key := relName(callee)
 	a.callCnt[key]++
 	k := a.callCnt[key]
-	a.atCall("before-call "+fmt.Sprintf("%s#%d", key, k), Val{}, instr)
+	a.atCall("before-call "+fmt.Sprintf("%s#%d", key, k), Val{}, instr, nil)
+	preCall := a.cur.clone()
 	res := a.callStatic(instr, c, rt, args, callee, name, key, k)
-	a.atCall("after-call "+fmt.Sprintf("%s#%d", key, k), res, instr)
+	a.atCall("after-call "+fmt.Sprintf("%s#%d", key, k), res, instr, preCall)
 	return res
 }
 
 // atCall processes assert / assume-input clauses attached to "before-call f#k" / "after-call f#k".
 // Assertions are proved and then available as facts (lemma hints).
-func (a *Act) atCall(label string, res Val, instr ssa.Instruction) {
+func (a *Act) atCall(label string, res Val, instr ssa.Instruction, preCall *State) {
 	if a.contract == nil || a.mode == modeSpec {
 		return
 	}
@@ -88,11 +89,17 @@ func (a *Act) atCall(label string, res Val, instr ssa.Instruction) {
 		e := a.baseEnv(a.cur)
 		blk := a.curBlk
 		e.resolve = func(name string) (Val, bool) { return a.resolveDom(blk, name, a.cur) }
-		if res.Comp {
+		if preCall != nil {
+			// prev(...) in an after-call assertion refers to the state just before the call
+			pe := a.baseEnv(preCall)
+			pe.resolve = func(name string) (Val, bool) { return a.resolveDom(blk, name, preCall) }
+			e.prev = pe
+		}
+		if _, isTuple := res.T.(*types.Tuple); res.Comp && isTuple {
 			for i, f := range res.Fields {
 				e.vars[fmt.Sprintf("result%d", i)] = f
 			}
-		} else if res.Sort != "" {
+		} else if res.Sort != "" || res.Comp {
 			e.vars["result"] = res
 			e.vars["result0"] = res
 		}
